@@ -80,6 +80,15 @@ pub fn replay_dir() -> PathBuf {
     crate::verif_dir().join("replays")
 }
 
+/// "" for /repo, "-alt-<hash>" when the check runs against another tree (VERIF_REPO), so that
+/// concurrent checks of different trees do not overwrite each other's replay files.
+pub fn replay_tag() -> String {
+    match std::env::var("VERIF_TAG") {
+        Ok(t) if !t.is_empty() && t != "main" => format!("-{}", t),
+        _ => String::new(),
+    }
+}
+
 /// Entries of /verif/known_findings.json that are *open* findings for `property`.
 /// A finding is identified by its `key` string, which each checker compares with the key it
 /// derives from a violation (specific input / call site / history), so a different violation
